@@ -66,7 +66,11 @@ class Source:
     def parse(self, rel: str) -> ast.Module:
         if rel not in self._ast_cache:
             try:
-                self._ast_cache[rel] = ast.parse(self.read(rel), filename=rel)
+                tree = ast.parse(self.read(rel), filename=rel)
+                # every module is brought into the front-end normal form once, at parse time (jfsa/normalize.py)
+                from .normalize import normal_form_module
+                normal_form_module(tree)
+                self._ast_cache[rel] = tree
             except SyntaxError as e:
                 raise AnalysisError(f"cannot parse {rel}: {e}")
         return self._ast_cache[rel]
